@@ -499,7 +499,7 @@ func runConc(c *h.Ctx, cc ConcCase) {
 }
 
 var concProp = h.Define(P, "concurrent", func(t *rapid.T) ConcCase {
-	cfg := tok.GenCfg{Algs: []keys.Alg{keys.Ed25519, keys.Ed25519, keys.P256, keys.Secp256k1, keys.RSA}, NoTopNull: true, OnlyFuture: true, Values: val.Cfg{Depth: 2, MaxLen: 3, SafeInts: true, NoFloat: true}}
+	cfg := tok.GenCfg{Algs: []keys.Alg{keys.Ed25519, keys.Ed25519, keys.P256, keys.Secp256k1}, NoTopNull: true, OnlyFuture: true, Values: val.Cfg{Depth: 2, MaxLen: 3, SafeInts: true, NoFloat: true}}
 	cc := ConcCase{Goroutines: rapid.IntRange(2, 8).Draw(t, "goroutines")}
 	n := rapid.IntRange(1, 4).Draw(t, "ntok")
 	for i := 0; i < n; i++ {
